@@ -465,11 +465,18 @@ def _enum_call(cls, value, *a, **k):
             raise ValueError(f"{value!r} is not a valid {cls.__qualname__}")
         return r
     table = []
+    from . import symdict as _sd
+
     for x in f.table:
         try:
             table.append(_orig_enum_call(cls, int(x)))
         except Exception as e:  # the real Enum machinery / _missing_ raised for this value
             table.append(_Raises(type(e)))
+    # (the Enum call was made for EVERY value the argument can take - a device of the model; whatever a `_missing_` hook
+    # wrote onto the member singletons while it was asked about values the program did not pass must not stay.  The side
+    # effect of the one real call is thereby not modelled either: state kept on enum members is visible to the native
+    # history oracle and the native cross-check only.)
+    _sd.reset_enums()
     excs = []
     for t in table:
         if isinstance(t, _Raises) and t.exc not in excs:
@@ -864,3 +871,4 @@ def rebuild_import_time_objects():
     symdict.install()
     symdict.install_defaults()
     symdict.install_bitarrays()
+    symdict.install_enums()
